@@ -196,7 +196,8 @@ Theorem writer_reread_thm : forall cs force,
     /\ views (d_files d) (map sized_of ms) = sp_view ms (plain_opts (fresh_mode cs force))
     /\ exists cd eod, get_original (rd_bytes z) d false = Ok (cd, eod) /\ cd ++ eod = zdrop (zlen (locals ms)) z.
 Proof.
-  intros cs force Hok Hcnt Hsmall z ms. unfold z.
-  rewrite fresh_archive_appnote by (try assumption; lia).
+  intros cs force Hok Hcnt Hsmall z ms.
+  assert (E : z = build ms (plain_opts (fresh_mode cs force))) by (apply fresh_archive_appnote; [assumption|assumption|lia]).
+  clearbody z. subst z.
   apply parse_build_thm. now apply fresh_archive_in_classK.
 Qed.
